@@ -173,7 +173,7 @@ EXTRA = {
     + T("TablesFacts", ["fact_builder_resolve_only_passes_data"]),
     "C03": T("TablesResolve", RESOLVE_TABLES) + T("TablesConst", ["tables_rel_tol"]) + G_RESOLVE + IDENT_TABLES + G_DEME_EPOCHS(),
     "C05": T("TablesResolve", RESOLVE_TABLES[:7]) + T("TablesGuardsSimplify", GUARDS_SIMPLIFY),
-    "C06": T("TablesResolve", RESOLVE_TABLES[:7]),
+    "C06": T("TablesResolve", RESOLVE_TABLES[:7]) + T("TablesAsdictShape", ["tables_asdict_shape"]),
     "C07": T("TablesMs", MS_TABLES) + T("TablesGuardsToMs", GUARDS_TO_MS),
     "C08": T("TablesMs", MS_TABLES) + T("TablesGuardsMsBuild", GUARDS_MS_BUILD) + T("TablesGuardsMsPost", GUARDS_MS_POST),
     "C09": T("TablesMs", MS_TABLES),
@@ -188,7 +188,7 @@ EXTRA = {
            + T("TablesGuardsClose", ["guards_tie_isclose_deme_proportions"]) + T("TablesConst", ["tables_rel_tol", "tables_abs_tol"]),
     "C15": T("TablesFacts", ["fact_rename_demes_copies_first"]) + T("TablesGuardsRename", GUARDS_RENAME) + IDENT_TABLES[:3]
     + ACCESSOR_LOOKUPS + T("TablesAccessors", ["accessors_bodies", "accessors_fields", "accessors_tie_graph_getitem", "accessors_tie_graph_contains"]),
-    "C18": T("TablesFacts", ["fact_fromdict_copies_first", "fact_builder_resolve_passes_data", "fact_fromdict_copy_is_unaliased", "fact_deepcopy_unaliased_shape", "fact_builder_resolve_only_passes_data"])
+    "C18": T("TablesAsdictShape", ["tables_asdict_shape"]) + T("TablesFacts", ["fact_fromdict_copies_first", "fact_builder_resolve_passes_data", "fact_fromdict_copy_is_unaliased", "fact_deepcopy_unaliased_shape", "fact_builder_resolve_only_passes_data"])
     + T("TablesGuardsBuilder", GUARDS_BUILDER),
     "C19": T("TablesMs", ["tables_cli_parse_flags", "tables_cli_parse_tests"]) + T("TablesGuardsCli", GUARDS_CLI),
     "C17": T("TablesGuardsHandles", GUARDS_HANDLES),
